@@ -146,7 +146,7 @@ func (nt *c17Net) reconnectAll() {
 	if nt.dirty {
 		// a failed call closes the endpoint; calls still pending on it then fail asynchronously
 		// and their handler (handleRpcResponse) marks the node disconnected once more: let them finish
-		time.Sleep(3 * time.Millisecond)
+		vWaitQuiet(nil)
 		nt.dirty = false
 	}
 	for _, name := range nt.names {
@@ -400,16 +400,13 @@ func c17Election(w []string) string {
 					nt.dirty = true
 				}
 				call.codec.respCh <- call.resp
-				// the reply reaches electLeader through two goroutines; give it time to count it
-				if ch := nt.electing[cand]; ch != nil && nt.cl[cand].fo.term == term {
-					select {
-					case <-ch:
-						nt.electing[cand] = nil
-					case <-time.After(30 * time.Millisecond):
-					}
-				} else {
-					time.Sleep(2 * time.Millisecond)
+				// the reply reaches electLeader through two goroutines: wait until every goroutine is parked
+				// again (sound quiescence, zz_verif_topic_test.go), i.e. until electLeader has counted it
+				// and is waiting for the next reply, or has returned
+				if w := vWaitQuiet(nil); w != "" {
+					return strings.Join(out, "|") + "|" + strings.ReplaceAll(w, " ", "_")
 				}
+				nt.isElecting(cand)
 			case 'X':
 				if call.state == 1 || call.state == 2 {
 					call.state = 3
